@@ -9,7 +9,8 @@ SRC_FACTS = ["crypt_fn_secret", "crypt_key_ciphertext", "crypt_new_key", "marsha
              "envelope_magic", "envelope_version", "envelope_min_len"]
 COQ_SAMPLE = 60
 BATCH = 200
-RULE = ("regression corpus; spelling family (every YAML spelling of the keys fn::secret / ciphertext and of the text "
+RULE = ("regression corpus; line-break family (non-secret literal / folded block scalars and secrets in block / flow "
+        "position whose text contains LF and starts with LF, U+2028, U+2029, tab; controls U+0085, U+FEFF); spelling family (every YAML spelling of the keys fn::secret / ciphertext and of the text "
         "scalar: plain, quoted, \\x / \\u escapes, !!str tag, block / flow, one secret per document); whitespace family (all texts over {LF, space, tab, x, U+2028, -} up to length 3, thorough 4, "
         "decrypted into a block slot / encrypted from a quoted scalar); exhaustive small family: every secret text (48: empty, one byte, 123/null/true/~, "
         "leading/trailing spaces, $ / $$ / ${x}, multi-line, non-ASCII, big integers, YAML indicators) x scalar style "
@@ -121,6 +122,13 @@ def gen(rng, tier):
     # --- alternative spellings of the keys fn::secret / ciphertext and of the text scalar ---------------------------
     for form, text in G.spelled_documents(0x6B, 1, thorough):
         add("enc" if form == "plain" else "dec", text, 0x6B, 1, "spelling-" + form)
+
+    # --- texts starting with a line break character (LF, U+2028, U+2029; controls U+0085, U+FEFF, tab) ---------------
+    for text in G.break_scalar_documents():
+        add("enc", text, 0x2C, 0, "breaks-scalar")
+        add("dec", text, 0x2C, 0, "breaks-scalar")
+    for form, text in G.break_secret_documents(0x2C, 1):
+        add("enc" if form == "plain" else "dec", text, 0x2C, 1, "breaks-secret")
 
     # --- non-secret scalars beside a secret: every YAML-special string x style, typed scalars -----------------
     for t in G.STRING_TEXTS:
